@@ -240,6 +240,28 @@ def run(ctx):
         if n_multi >= ctx.budget(25, 300):
             break
     ctx.count("multi_root_fault_documents", n_multi)
+    # ---- a fault in one occurrence of a repeatable keyword: the block records a LIST of positions for it; validate
+    # must not raise and the message must carry the line of the failing occurrence
+    for kw, host in (("PROCESSING", "LAYER\n  TYPE POINT"), ("FORMATOPTION", "OUTPUTFORMAT\n  NAME 'o'")):
+        for bad_at in (0, 1, 2):
+            lines = ["MAP"] + host.split("\n")
+            occ = []
+            for i in range(3):
+                occ.append(len(lines) + 1)
+                lines.append("  %s %s" % (kw, "5" if i == bad_at else '"K%d=V"' % i))
+            lines += ["END", "END"]
+            text = "\n".join(lines) + "\n"
+            ctx.note_case(text)
+            try:
+                d = sweep.fast_loads(text, True, False)
+                msgs = mappyfile.validate(d)
+            except Exception as ex:
+                ctx.violation("validate-raises:" + type(ex).__name__, "validate raised on an invalid value in one occurrence of the repeatable keyword %s (positions recorded): %s" % (kw, str(ex)[:150]), {"text": text})
+                continue
+            named = [(m.get("line"), m.get("column")) for m in msgs if m.get("message", "").upper().endswith(" " + kw)]
+            if (occ[bad_at], 3) not in named:
+                ctx.violation("message-location:repeated-keyword", "invalid value in occurrence %d of %s: messages at %r, that occurrence is at %r" % (bad_at, kw, named, (occ[bad_at], 3)),
+                              {"text": text, "messages": msgs})
     # object-level error: unknown keyword in nested blocks -> opener of the enclosing block
     for ty_path in (["map"], ["map", "layer"], ["map", "layer", "class"], ["map", "web"], ["map", "legend"], ["map", "layer", "class", "style"]):
         blocks = []
